@@ -23,6 +23,9 @@ def main():
     if a.prop in ('C11', 'C12'):
         import yaml_check
         return yaml_check.main(a.prop, a.tier, a.seed, a.replay)
+    if a.prop == 'C20':
+        import runner_check
+        return runner_check.main(a.prop, a.tier, a.seed, a.replay)
     print('unknown property', a.prop)
     return 2
 
